@@ -8,9 +8,10 @@ import Driver.OpsHistory
 import Driver.OpsTransfer
 import Driver.OpsSpectral
 import Driver.OpsCurv
+import Driver.OpsLevel
 open LapyVerif.Driver
 
-def allOps : List (String × P String) := femOps ++ diffGeoOps ++ topoOps ++ meshOps ++ solveOps ++ heatOps ++ historyOps ++ ctorOps ++ transferOps ++ spectralOps ++ curvOps
+def allOps : List (String × P String) := femOps ++ diffGeoOps ++ topoOps ++ meshOps ++ solveOps ++ heatOps ++ historyOps ++ ctorOps ++ transferOps ++ spectralOps ++ curvOps ++ levelOps
 
 def handle (line : String) : String :=
   let toks := ((line.trimAscii.toString.splitOn " ").filter (· ≠ "")).toArray
